@@ -497,7 +497,7 @@ pub fn c12(cx: &mut Ctx) {
             for cap in [1usize, 7, 100] {
                 for cut in [0usize, 3] {
                     if !super::bodyr::to_recv_body(cx, "GET", heads[0]) { continue; }
-                    if stop { cx.op("stopb true"); }
+                    if stop { cx.op("stopb 1"); }
                     let mut w = size.to_vec(); w.extend_from_slice(b"\r\nabcdefgh\r\n0\r\n\r\n");
                     let mut off = 0;
                     for upto in [size.len() + 2 + cut, w.len()] {
